@@ -429,8 +429,10 @@ def run(chk):
         "the theorems are about token streams; that the real PARSER maps streams equal up to the optional final Newline to equal "
         "ASTs is not proved — it is exercised by the AST oracle (all edits x all positions of generated programs and the corpus)",
         "a string literal is one symbol of the model: no edit of the property acts inside a literal",
-        "re-indentation theorem: column map strictly monotone on all naturals with f 0 = 0; maps that are monotone only on the "
-        "occurring widths (4 -> 2 spaces) are covered by the oracle (reindent-half, reindent-rank), not by the theorem",
+        "re-indentation theorem: column map strictly monotone on the occurring columns W (W 0, f 0 = 0): x2, x4, halving on even "
+        "columns, rank compression; every physical line outside string literals is re-indented (continuation lines included)",
+        "refinement proved: machine [lex] (fuel, pending dedents, at_line_start, bracket depth) = one-pass semantics [scan]; a separate "
+        "line-based declarative spec (DESIGN's Lex/Spec.v, machine_refines_spec) is NOT written: the edit theorems are proved directly on [scan]",
     ]
     res = chk.proof_stage("C10", allow_axioms=())
     binary = vlib.build_harness("debug")
